@@ -73,6 +73,11 @@ func Render(o Obj) string {
 		}
 		return "false"
 	case Int:
+		if IntFault != nil {
+			if r, ok := IntFault(int64(v)); ok {
+				return r
+			}
+		}
 		return strconv.FormatInt(int64(v), 10)
 	case int:
 		return strconv.Itoa(v)
@@ -171,6 +176,13 @@ type Revision struct {
 // (lengths, /First, offsets) stays consistent with the returned payload. The self-audit is
 // skipped for a file whose payload was changed.
 var PayloadFault func(kind string, num int, payload []byte, w [3]int) []byte
+
+// IntFault, when set, is asked for every integer the writer renders into an object, dictionary or array
+// (document numbers as well as the /Length, /N, /First, /Size, /W, /Index, /Count ... the writer computes) and may
+// return another spelling for it. The file is laid out AFTER the replacement, so offsets, lengths and the
+// cross-reference data stay consistent with what is written: exactly one numeric field is wrong. The self-audit is
+// skipped while a fault hook is installed.
+var IntFault func(v int64) (string, bool)
 
 type File struct {
 	EOL     string // "lf", "crlf", "cr"
@@ -477,7 +489,7 @@ func (f *File) Bytes() ([]byte, *Layout, error) {
 		lay.Compressed = append(lay.Compressed, comp)
 	}
 	b := out.Bytes()
-	if faulted {
+	if faulted || IntFault != nil {
 		return b, lay, nil
 	}
 	if err := audit(b, f, lay); err != nil {
